@@ -35,6 +35,7 @@ func runC20(o opts) error {
 			scns = append(scns, c20.GenBlocks(rng, c20.AllAlphas(), 16)...)
 			scns = append(scns, c20.GenHist(rng, "kitty", 2500)...)
 			scns = append(scns, c20.GenHist(rng, "sixel", 2500)...)
+			scns = append(scns, c20.GenDoubleResize(rng, 60)...)
 		} else {
 			scns = append(scns, c20.GenFitBlocks(rng, 0.05)...)
 			scns = append(scns, c20.GenFitPixel(rng, 0.004)...)
@@ -45,6 +46,7 @@ func runC20(o opts) error {
 			scns = append(scns, c20.GenBlocks(rng, al, 10)...)
 			scns = append(scns, c20.GenHist(rng, "kitty", 80)...)
 			scns = append(scns, c20.GenHist(rng, "sixel", 80)...)
+			scns = append(scns, c20.GenDoubleResize(rng, 8)...)
 		}
 		scns = append(scns, c20.FixedFits()...)
 		scns = append(scns, c20.FixedBlocks()...)
